@@ -40,6 +40,11 @@ struct LqRun {
         // one setup in eight: the random source's first candidate for the generator P is a point of the cofactor torsion (its cofactor multiple is the
         // identity: the sampler must draw again - a legal, astronomically rare output of an honest source)
         if (plan.c("setup_torsion", 0)) { std::vector<uint8_t> raw; if (torsion_candidate_raw(R, 2, (uint64_t) plan.c("setup_seed", 1), raw)) { env.stream.push(48, std::vector<uint8_t>(raw.begin(), raw.begin() + 48)); env.stream.push(48, std::vector<uint8_t>(raw.begin() + 48, raw.end())); env.stream.push(1, std::vector<uint8_t>(1, (uint8_t) (plan.c("setup_seed", 1) & 1))); env.count("fault:setup_generator_candidate_in_cofactor_torsion"); } }
+        // one setup in eight: the source's first whole candidate for the master scalar is out of range (digits each valid, the value >= r) and is
+        // thrown away - the second candidate is the master scalar, and sP must be [that]P
+        if (plan.c("setup_reject", 0)) { std::vector<std::string> f = {plan.c("setup_reject", 0) == 1 ? "tupler" : "storm8"}; for (auto& t : f) { auto push8 = [&](const Bn& v) { std::vector<uint8_t> b(8); v.to_le(b.data(), 8); env.stream.push(8, b); };
+            if (t == "tupler") { Bn q2, rem, cur = Bn::add(K().r, Bn((uint64_t) (plan.c("setup_seed", 1) % 1000))); for (int i = 0; i < 4; i++) { Bn::divmod(cur, K().absx, q2, rem); push8(rem); cur = q2; } } else for (int i = 0; i < 5; i++) push8(i % 2 ? K().absx : Bn::sub(Bn(1).shl(64), Bn(1))); }
+            env.count("fault:setup_first_master_scalar_candidate_rejected"); env.stream.limit += 16; }
         R.jv_lq_setup(view, params, msk, jv_rand_cb);
         Bn s = drawn("setup"); s_raw = msk_scalar();
         env.check(s_raw == s, "C16", "setup:master-scalar", "master scalar is not the scalar drawn from the stream");
@@ -253,6 +258,7 @@ struct LqScenario : Scenario {
             return p;
         }
         if (r.chance(1, 8)) p.cfg["setup_torsion"] = 1;
+        if (r.chance(1, 8)) p.cfg["setup_reject"] = 1 + (int64_t) r.below(2);
         int n = r.range(3, 20);
         static const char* sf[] = {"storm8", "tupler", "tuplerm1", "tuple1", "digitxm1", "tuple0"};
         for (int i = 0; i < n; i++) {
